@@ -7,6 +7,7 @@ import (
 	"io"
 	"os"
 	"path/filepath"
+	"strings"
 	"time"
 
 	"github.com/cheggaaa/pb/v3"
@@ -102,7 +103,19 @@ func readDirManifest(path string) (man directoryManifest, err error) {
 		return
 	}
 	defer f.Close()
-	err = json.NewDecoder(f).Decode(&man)
+	if err = json.NewDecoder(f).Decode(&man); err != nil {
+		return
+	}
+	// Every entry of a directory manifest names a direct child of that
+	// directory. Anything else (path separators, "..", a path that differs
+	// from its key) would make checkout create files outside the artifact.
+	for name, child := range man.Contents {
+		if child == nil || child.Path != name || name == "" || name == "." || name == ".." ||
+			strings.ContainsRune(name, filepath.Separator) {
+			err = fmt.Errorf("directory manifest %s: invalid entry %#v", path, name)
+			return
+		}
+	}
 	return
 }
 
